@@ -102,7 +102,13 @@ def div (p : Nat) (a b : Dec) : Option Dec :=
 
 /-! ### `str(Decimal)` -/
 
-def digitsOf (n : Nat) : Str := natStr n
+/-- the decimal digits of the coefficient, most significant first (`self._int`), by repeated division;
+`fuel` = `n + 1` is more than the number of digits -/
+def digitsAux : Nat → Nat → Str → Str
+  | 0, _, acc => acc
+  | fuel + 1, n, acc => if n < 10 then (48 + n) :: acc else digitsAux fuel (n / 10) ((48 + n % 10) :: acc)
+
+def digitsOf (n : Nat) : Str := digitsAux (n + 1) n []
 
 def intStr (i : Int) : Str := if i < 0 then 45 :: natStr i.natAbs else natStr i.natAbs
 
